@@ -359,6 +359,8 @@ pub fn history(enc: &'static Encoding, prof: Profile) -> impl Strategy<Value = D
             .collect();
         // every fifth history mixes the output methods call by call
         let sinks_per_call = if prof.sinks.len() > 1 && bomx % 5 == 0 { (0..3).map(|i| prof.sinks[((bomx >> (8 + 4 * i)) as usize) % prof.sinks.len()]).collect() } else { Vec::new() };
-        DecHistory { enc, mode, sink, repl, stream, cuts, last_on_empty, caps, fill, align: (align & 15) as usize, sinks_per_call }
+        // every seventh history mixes the with- and without-replacement methods
+        let repls_per_call = if bomx % 7 == 0 { vec![bomx & 256 != 0, bomx & 512 == 0, bomx & 1024 != 0] } else { Vec::new() };
+        DecHistory { enc, mode, sink, repl, stream, cuts, last_on_empty, caps, fill, align: (align & 15) as usize, sinks_per_call, repls_per_call }
     })
 }
